@@ -28,13 +28,14 @@ Definition env_lines (l : list med) : list eline := env_from true l.
 Definition code (e : eline) : nat :=
   match e with LConst => 3 | LRadN => 4 | LRadR => 5 | LCoord => 6 | LHeight => 7 end.
 
-(* environment_as_mininec: 0 = free space line, 1 = ground plane line, 10 + n = NUMBER OF MEDIA n, 2 = TYPE OF BOUNDARY *)
-Definition env_report (media : option (list med)) : list nat :=
+(* environment_as_mininec: 0 = free space line, 1 = ground plane line, 10 + n = NUMBER OF MEDIA n, 21 / 22 = TYPE OF
+   BOUNDARY 1 (linear) / 2 (circular: asked for, or forced by a radial screen) *)
+Definition env_report (circ : bool) (media : option (list med)) : list nat :=
   match media with
   | None => [0]
   | Some l =>
     let ln := match l with [m] => if m_ideal m then 0 else 1 | _ => length l end in
-    [1; 10 + ln] ++ (if 1 <? length l then [2] else []) ++ (if 0 <? ln then map code (env_lines l) else [])
+    [1; 10 + ln] ++ (if 1 <? length l then [if circ then 22 else 21] else []) ++ (if 0 <? ln then map code (env_lines l) else [])
   end.
 
 (* the block of the i-th of n media, by position *)
